@@ -34,7 +34,7 @@ Record spec := mkSp {
   t_ran : list gid;      (* had their step in this frame *)
   t_ghost : list (gid * ghost);
   t_woke : list (gid * Z);   (* whose wait ran out in the running frame, and by how much *)
-  t_risky : list gid;        (* see [sp_action] *)
+  t_risky : list gid;        (* see [risky_start] *)
   t_cur : option gid;        (* the coroutine whose body is running *)
   t_abort : option Z;        (* the exception that left a body and ended the running frame *)
   ok08 : bool; ok09 : bool; okwf : bool
@@ -99,6 +99,16 @@ Definition add_risk (b : bool) (g : gid) (t : spec) : spec :=
 
 Definition is_ok (o : outcome) : bool := match o with OOk => true | _ => false end.
 
+(* A successful start of g, issued by the body of a coroutine whose wait ran
+   out in the same frame and with the very same deadline as g's, while g has
+   not run since (it was killed before its turn).  The order in which the heap
+   released the two is open and does not show in the logs, but it decides
+   whether g keeps its place.  The acceptor tries both readings; it does not
+   try the combinations of two such events, which are therefore outside the
+   domain until a frame has been completed. *)
+Definition risky_start (t : spec) (g : gid) (o : outcome) : bool :=
+  is_ok o && negb (memz g (t_ran t)) && tied_with (t_cur t) g (t_woke t).
+
 Definition sp_action (t : spec) (a : action) (o : outcome) : spec :=
   let t := flag09 (outcome_eqb o (exp_action t a)) t in
   match a with
@@ -106,14 +116,10 @@ Definition sp_action (t : spec) (a : action) (o : outcome) : spec :=
       (* restarting an exhausted generator is outside the domain: its
          resumption executes no code, so nothing of it can be observed *)
       let t := flagwf (negb (memz g (t_fin t))) t in
-      (* also outside: a coroutine whose wait ran out in this frame, killed by
-         an earlier body before it ran, restarted by the body of a coroutine
-         whose wait ran out in this frame with the very same deadline, and
-         then not run in this frame.  (The heap order of equal deadlines is
-         open; in every other case the log shows it, here it would matter
-         without showing.)  Such a restart is remembered in [t_risky] and
-         judged at the end of the frame. *)
-      let t := add_risk (is_ok o && negb (memz g (t_ran t)) && tied_with (t_cur t) g (t_woke t)) g t in
+      (* also outside: a second [risky_start] before the order of the
+         coroutines concerned has shown *)
+      let t := flagwf (negb (risky_start t g o && match t_risky t with [] => false | _ => true end)) t in
+      let t := add_risk (risky_start t g o) g t in
       if is_ok o then started t g else t
   | AKill g => if is_ok o then killed t g else t
   | AState _ => t
@@ -143,12 +149,15 @@ Definition enter (t : spec) (g : gid) (k : Z) : spec :=
 (* a body raised: the frame is abandoned.  Those that have not run keep their
    turn for the next frame, after those that ran (same relative order as
    before); nobody is owed a step any more in this frame; a killed coroutine
-   that was to be dropped in this frame is dropped in the next one. *)
+   that was to be dropped in this frame is dropped in the next one.  (The
+   coroutines whose wait ran out in this frame and that have not run stay
+   in [t_woke]: the order of equal deadlines among them is still open.) *)
 Definition gh_next (x : gid * ghost) : gid * ghost :=
   match x with (g, ZNow) => (g, ZNext) | _ => x end.
 Definition abandon (k : Z) (t : spec) : spec :=
   mkSp (t_st t) (t_pc t) (t_val t) (t_fin t) [] (t_norder t ++ t_order t) [] (t_ran t)
-       (map gh_next (t_ghost t)) (t_woke t) (t_risky t) None (Some k)
+       (map gh_next (t_ghost t))
+       (filter (fun x => negb (memz (fst x) (t_ran t))) (t_woke t)) (t_risky t) None (Some k)
        (ok08 t) (ok09 t) (okwf t).
 
 Definition sp_result (t : spec) (g : gid) (res : result) : spec :=
@@ -222,7 +231,7 @@ Definition woke_st (dt : Z) (l : list (gid * status)) : list (gid * Z) :=
 Definition tick (dt : Z) (t : spec) : spec :=
   let st' := map (tick_st dt) (t_st t) in
   mkSp st' (t_pc t) (t_val t) (t_fin t) (t_norder t) [] (act_keys st') []
-       (map (tick_gh dt) (t_ghost t)) (woke_st dt (t_st t)) [] None None
+       (map (tick_gh dt) (t_ghost t)) (t_woke t ++ woke_st dt (t_st t)) [] None None
        (ok08 t) (ok09 t) (okwf t).
 
 Definition gh_stays (x : gid * ghost) : bool :=
@@ -236,10 +245,10 @@ Definition frame_end (t : spec) (exc : outcome) : spec :=
   let t := flag08 (match t_due t with [] => true | _ => false end) t in
   (* process never fails, except by passing on what left a coroutine body *)
   let t := flag09 (outcome_eqb exc (abort_outcome t)) t in
-  (* input domain: see [sp_action] *)
-  let t := flagwf (forallb (fun u => memz u (t_ran t)) (t_risky t)) t in
   mkSp (t_st t) (t_pc t) (t_val t) (t_fin t) (t_order t) (t_norder t) (t_due t) (t_ran t)
-       (filter gh_stays (t_ghost t)) [] [] None None (ok08 t) (ok09 t) (okwf t).
+       (filter gh_stays (t_ghost t)) (if no_abort t then [] else t_woke t)
+       (if no_abort t then [] else t_risky t) None None
+       (ok08 t) (ok09 t) (okwf t).
 
 Definition bad (t : spec) : spec := flagwf false t.
 
